@@ -31,6 +31,20 @@ type Recipe struct {
 	// Callable: Sub = parameter types, HasSize/Lo/Hi = size of the parameter tuple; Ret / Block optional
 	Ret   *Recipe `json:"ret,omitempty"`
 	Block *Recipe `json:"block,omitempty"`
+	// Via (root only): "" = fresh objects from the constructors; "shared" = equal sub-recipes are ONE instance
+	// (the same type object at several positions); "parsed" = the type the parser makes of the text of that type
+	Via string `json:"via,omitempty"`
+}
+
+// buildMemo: when not nil, Build returns the same instance for equal recipes
+var buildMemo map[string]px.Type
+
+func (s *Recipe) BuildVia() px.Type {
+	if s.Via == "shared" {
+		buildMemo = map[string]px.Type{}
+		defer func() { buildMemo = nil }()
+	}
+	return s.Build()
 }
 
 func fromSpec(s *lat.Spec) *Recipe {
@@ -65,6 +79,19 @@ func (s *Recipe) subTypes() []px.Type {
 
 // Build constructs the type (fresh objects on every call, except the library's own singletons).
 func (s *Recipe) Build() px.Type {
+	if buildMemo == nil || s.Via != "" {
+		return s.build()
+	}
+	key := s.json()
+	if t, ok := buildMemo[key]; ok {
+		return t
+	}
+	t := s.build()
+	buildMemo[key] = t
+	return t
+}
+
+func (s *Recipe) build() px.Type {
 	sub := func(i int) px.Type { return s.Sub[i].Build() }
 	switch s.K {
 	case "Any":
